@@ -126,6 +126,24 @@ async fn run_storm(a: &Args, m: &mut mon::Mon) {
                     }
                 }
             }
+            if k % 500 == 100 && matches!(a.prop.as_str(), "C01" | "C03") {
+                // forced deleverage by the risk admin (partial and whole-debt repayments on a bank
+                // that is not flagged for token-less repayment)
+                w.refresh_oracles();
+                let g = s.g;
+                let nb = w.banks.len();
+                let cands: Vec<usize> = (0..nb).filter(|b| scen::usable_collateral(&w, *b)).collect();
+                let dbs: Vec<usize> = (0..nb).filter(|b| w.bank(*b).config.operational_state == marginfi_type_crate::types::BankOperationalState::Operational && w.bank(*b).config.asset_tag <= 1).collect();
+                if !cands.is_empty() && dbs.len() > 1 {
+                    let ca = storm::pick(&mut r, &cands);
+                    let db = storm::pick(&mut r, &dbs);
+                    if ca != db {
+                        if let Some(lev) = scen::setup_leveraged(&mut w, m, &mut r, g, s.liquidator, ca, db, 0.5).await {
+                            scen::deleverage(&mut w, m, &mut r, &lev, g).await;
+                        }
+                    }
+                }
+            }
             if k == 300 && matches!(a.prop.as_str(), "C02" | "C01" | "C06") && world_no % 2 == 0 {
                 // a bank is wiped out by bad debt half-way through (ledger / solvency exception / accrual on a dead bank)
                 w.refresh_oracles();
